@@ -675,6 +675,23 @@ theorem inv1_fdel {s : GState} (hi : Inv1 s) (t' : TState) (k0 : Key) (hm : t'.m
     have : fget t'.fmap k0 = none := by rw [hf]; simp
     rw [this] at h; simp at h
 
+theorem inv1_copyStep {s : GState} (hi : Inv1 s) (w : Worker) (pick : Nat) :
+    Inv1 { t := (copyStep s.t w pick).1, g := s.g } := by
+  obtain ⟨hgm, hgd⟩ := hi.good
+  unfold copyStep
+  split
+  · exact inv1_same_t hi _ rfl rfl rfl
+  · split
+    · exact inv1_same_t hi _ rfl rfl rfl
+    · simp only
+      split
+      · rename_i db hdb
+        have hD := (hBlob_some hdb).1
+        have hlive := live_of_disk hi hD
+        exact inv1_disk_step hi _ w.key rfl rfl (good_setData' hgd _ _ _ hD)
+          (onlyKey_of_touch (touch_setData _ _ _ _)) (fun hl => by rw [hlive] at hl; simp at hl)
+      · exact inv1_same_t hi _ rfl rfl rfl
+
 theorem inv1_wstep {s : GState} (hi : Inv1 s) (w : Worker) (pick : Nat) :
     Inv1 { t := (wstep s.t w pick).1, g := s.g } := by
   obtain ⟨hgm, hgd⟩ := hi.good
@@ -702,19 +719,8 @@ theorem inv1_wstep {s : GState} (hi : Inv1 s) (w : Worker) (pick : Nat) :
       simp only
       split <;> exact inv1_same_t step _ rfl rfl rfl
   · exact inv1_same_t hi _ rfl rfl rfl
-  · -- fCopy
-    split
-    · exact inv1_same_t hi _ rfl rfl rfl
-    · split
-      · exact inv1_same_t hi _ rfl rfl rfl
-      · split
-        · rename_i db hdb
-          have hD := (hBlob_some hdb).1
-          have hlive := live_of_disk hi hD
-          exact inv1_disk_step hi _ w.key rfl rfl (good_setData' hgd _ _ _ hD)
-            (onlyKey_of_touch (touch_setData _ _ _ _)) (fun hl => by rw [hlive] at hl; simp at hl)
-        · exact inv1_same_t hi _ rfl rfl rfl
-  · split <;> exact inv1_same_t hi _ rfl rfl rfl
+  · exact inv1_copyStep hi w pick
+  · exact inv1_copyStep hi w pick
   · -- fCopied
     split
     · exact inv1_same_t hi _ rfl rfl rfl
